@@ -596,6 +596,35 @@ Fixpoint quiet_gen (keep rej : bool) (s : sys) (evs : list event) : Prop :=
   end.
 Definition quiet := quiet_gen recycle_keeps_inflight define_rejects_inflight.
 
+(* A weaker hypothesis that still covers the ordinary situation "a deferred plan runs again and declares
+   its children again while they are still in flight": a step in flight may be declared again when the
+   declaration is a FULL recycle (same outputs) and either only a hash check is under way (no command
+   executes: nothing of the row matters to the limits, and the row stays CHECKING), or the command executes
+   outside any hold block and the new declaration asks for the same resources (the row is rewritten with
+   the values it has). Everything else about an in-flight step (other resources, an open hold block, other
+   outputs = partial recycle) is finding D21. *)
+Definition benign_redeclare (x : row) (g : N) (cl : claims) : Prop :=
+  outs_match (sig x) g = true /\ (st x = Checking \/ (holding x = 0%N /\ cl = rclaims x)).
+
+Definition calm_event (s : sys) (e : event) : Prop :=
+  match e with
+  | EDefine p l g cl nd =>
+      match find_label l (db s) with
+      | Some i => match nth_error (db s) i with
+                  | Some x => (cmds x = [] /\ st x <> Checking) \/ benign_redeclare x g cl
+                  | None => True end
+      | None => True
+      end
+  | _ => True
+  end.
+
+Fixpoint calm_gen (keep rej : bool) (s : sys) (evs : list event) : Prop :=
+  match evs with
+  | [] => True
+  | e :: r => calm_event s e /\ calm_gen keep rej (apply_gen keep rej s e) r
+  end.
+Definition calm := calm_gen recycle_keeps_inflight define_rejects_inflight.
+
 (* ------------------------------------------------------------------------------------------ *)
 (* Observations used by the correspondence                                                     *)
 (* ------------------------------------------------------------------------------------------ *)
